@@ -706,6 +706,10 @@ def rule_r5(prog, res) -> None:
                 if delta != (-1 if is_sent else 0):
                     ok = False
                     why.append("a sentinel is sent in the result loop without retiring the worker (counter not decremented): the loop never ends" if is_sent else "the counter is decremented although the worker received another task: the root stops before its result arrives")
+    incs = [x for x in walk_no_nested(fn) if isinstance(x, (ast.AugAssign, ast.Assign)) and ((isinstance(x, ast.AugAssign) and isinstance(x.op, ast.Add) and isinstance(x.target, ast.Name) and x.target.id == counter) or (isinstance(x, ast.Assign) and any(isinstance(t, ast.Name) and t.id == counter for t in x.targets) and isinstance(x.value, ast.BinOp) and isinstance(x.value.op, ast.Add)))]
+    if not incs and n_loop == 0:
+        res.violation("C06.R5", rt, first, f"the dispatcher never counts a worker as active (`{counter}` is not incremented in the first pass): the result loop does not run, the tasks that were sent are never collected and the remaining ones never dispatched", key_extra="dispatcher-never-counts")
+        return
     if n_first == 0 or n_loop == 0:
         raise AnalysisError(f"C06.R5: no path through the first pass ({n_first}) / the result loop ({n_loop}) of the dispatcher was explored")
     # tasks are taken from the iterator exactly where they are sent
@@ -912,6 +916,22 @@ def rule_r6(prog, res) -> None:
         res.ok("C06.R6", res.site(f, "returns root-only"), "returns a value that exists on the root rank only; every in-package caller was checked with the result treated as root-only", nontrivial=False)
     if n < 6:
         raise AnalysisError(f"C06.R6: only {n} root-only values found, minimum 6")
+    # the array helper: every rank passes the buffer broadcast from rank 0 before the array is returned
+    for ba in [f for f in _mpi_funcs(prog) if f.name == "bcast_array"]:
+        res.touch(ba)
+        bcfg = cfg_of(ba.node)
+        bnodes = [nd for nd in bcfg.nodes if any(op == "Bcast" and any(x is c for x in ast.walk(nd.expr or ast.Pass())) for c, op, k in _mpi_calls(prog, ba))]
+        rets_ = [nd for nd in bcfg.nodes if nd.kind == "stmt" and isinstance(nd.ast, ast.Return)]
+        rank_guarded = [nd for nd in bnodes if any(_rank_dependent(prog, ba, t) for t, _pol in bcfg.guards(nd))]
+        n += 1
+        if bnodes and not rank_guarded and rets_ and all(any(bcfg.dominates(b_, r_) for b_ in bnodes) for r_ in rets_):
+            roots = [kwarg(c, "root") for c, op, k in _mpi_calls(prog, ba) if op == "Bcast"]
+            if all(r_ is None or (isinstance(r_, ast.Constant) and r_.value == 0) for r_ in roots):
+                res.ok("C06.R6", res.site(ba), "the buffer is broadcast from rank 0 on every path before the array is returned")
+            else:
+                res.violation("C06.R6", ba, ba.node, "bcast_array broadcasts the buffer from another rank than 0, where the data are", key_extra="bcast-array-root")
+        else:
+            res.violation("C06.R6", ba, ba.node, "bcast_array can return without the buffer broadcast (Bcast) on every rank: the worker ranks keep an uninitialised array of the right shape — every number computed from it on those ranks is garbage, silently", key_extra="bcast-array-no-bcast")
     # buffer form: array filled on root only, Bcast before it is read
     hc = prog.func("HistData.from_catalog")
     res.touch(hc)
